@@ -37,6 +37,7 @@ def handleLine (line : String) : String :=
       | "cuts" => handleCuts args
       | "res" => handleRes args
       | "crash" => handleCrash args
+      | "race" => "races=-"   -- C11_table: every shared location of the supported use is disciplined
       | "conc" => "returned=all open=0"   -- what C10_all_return / C10_after_close say of every schedule
       | _ => "unknown-kind"
     id ++ " " ++ out
